@@ -59,15 +59,18 @@ GEN = {
     "sim_genuine": ("sim", "SessionGen_genuine.cfg", "pair", True),
     "sim_adv": ("sim", "SessionGen_adv.cfg", "pair", False),
     "sim_cross": ("sim", "SessionGen_cross.cfg", "cross", False),
+    # signature reflection: every transition of the reflection scenario (two initiators to splice from, two
+    # responders, the attacker reading RespHello signatures and sealing them into InitDones)
+    "edge_reflect": ("cover", "SessionEdge_reflect.cfg", "cross", False),
 }
 for _w in WEAK:
     GEN["weak_" + _w] = ("sim", "SessionGen_weak_%s.cfg" % _w, "pair", False)
 
 TIERS = {
-    "quick": dict(mc=[("genuine", "Session_genuine.cfg", 2), ("adv", "Session_adv.cfg", 6), ("cross", "Session_cross.cfg", 2)],
-                  sim=dict(sim_genuine=150, sim_adv=250, sim_cross=100, weak=50), cover_stride=dict(cover_genuine=1, cover_adv=3, edge_genuine=1)),
-    "thorough": dict(mc=[("genuine", "Session_genuine.cfg", 2), ("adv", "Session_adv_deep.cfg", 10), ("cross", "Session_cross_deep.cfg", 4)],
-                     sim=dict(sim_genuine=2000, sim_adv=4000, sim_cross=1500, weak=600), cover_stride=dict(cover_genuine=1, cover_adv=1, edge_genuine=1)),
+    "quick": dict(mc=[("genuine", "Session_genuine.cfg", 2), ("adv", "Session_adv.cfg", 6), ("cross", "Session_cross.cfg", 2), ("reflect", "Session_reflect.cfg", 2)],
+                  sim=dict(sim_genuine=150, sim_adv=250, sim_cross=100, weak=50), cover_stride=dict(cover_genuine=1, cover_adv=3, edge_genuine=1, edge_reflect=60)),
+    "thorough": dict(mc=[("genuine", "Session_genuine.cfg", 2), ("adv", "Session_adv_deep.cfg", 10), ("cross", "Session_cross_deep.cfg", 4), ("reflect", "Session_reflect.cfg", 2)],
+                     sim=dict(sim_genuine=2000, sim_adv=4000, sim_cross=1500, weak=600), cover_stride=dict(cover_genuine=1, cover_adv=1, edge_genuine=1, edge_reflect=2)),
 }
 
 
@@ -92,7 +95,11 @@ def stage1(tier, stats):
         bs = [x[1] for x in res.printed("BEH")]
         if kind == "cover":
             stride = T["cover_stride"][fam]
-            bs = [b for i, b in enumerate(bs) if (i + core.seed()) % stride == 0 or len(b["hist"]) >= 9]
+            if fam == "edge_reflect":
+                # every edge that delivers a reflected signature to the responder whose peer key it names; a sample of the rest
+                bs = [b for i, b in enumerate(bs) if (i + core.seed()) % stride == 0 or is_reflection(b)]
+            else:
+                bs = [b for i, b in enumerate(bs) if (i + core.seed()) % stride == 0 or len(b["hist"]) >= 9]
         if not bs:
             raise core.Inconclusive("generator %s produced nothing" % fam)
         return fam, bs
@@ -101,6 +108,14 @@ def stage1(tier, stats):
     gf = [ex.submit(gen, fam) for fam in GEN]
     behs = dict(f.result() for f in gf)
     return behs, mcf, ex
+
+
+def is_reflection(b):
+    h = b["hist"][-1]
+    if h["a"] != "deliver":
+        return False
+    t = b["msgs"][h["m"] - 1]
+    return t["t"] == "ID" and t["sig"] == "x" + h["rk"]
 
 
 def classify(op):
